@@ -43,7 +43,7 @@ int64_t last_now, cfg_ttl = 1000, cfg_tick = 5;
 static uint64_t call_method(C& c, uint64_t i)
 {
     Ev e[RMAX];
-    for (int j = 0; j < RMAX; ++j) { e[j].op = METHOD; e[j].k = (i + j) % 6; e[j].v = i; e[j].a = 3; e[j].pk = (i & 1) != 0; e[j].ttl = 1000; e[j].now = 0; }
+    for (int j = 0; j < RMAX; ++j) { e[j].op = METHOD; e[j].k = (i + j) % 6; e[j].v = i; e[j].a = (uint8_t)(1 + (i >> 1) % 3); e[j].pk = (i & 1) != 0; e[j].ttl = 1000; e[j].now = 0; }
     Res  r, out[RMAX];
     bool ko = true;
     uint64_t sink = 0;
@@ -56,7 +56,7 @@ static uint64_t call_method(C& c, uint64_t i)
     sink = c.capacity();
 #endif
 #elif METHOD_EFF == M_INSERT_RANGE
-    sink = x_insert_range(c, e, 2, 3);
+    sink = x_insert_range(c, e, 2, e[0].a); // every allow mode in turn: a path may be taken for one mode only
 #elif METHOD_EFF == M_ERASE_RANGE
     sink = x_erase_range(c, e, 2);
 #elif METHOD_EFF == M_FIND_RANGE
